@@ -269,13 +269,15 @@ func (g *gen) block(n int, first bool) []string {
 				kinds["dup"]++
 			}
 		default:
-			// signature that does not verify: only the verifier path looks at it
-			tx := g.noneTx()
-			if k == 99 {
-				tx.Signature.Signature[len(tx.Signature.Signature)/2] ^= 1
-				kinds["badsig"]++
-			}
-			txs = append(txs, tx)
+			txs = append(txs, g.noneTx())
+			kinds["none"]++
+		}
+	}
+	if g.r.Intn(10) == 0 {
+		// one signature that does not verify: only the verifier path looks at signatures, and must say ErrSign everywhere
+		if tx := txs[g.r.Intn(len(txs))]; tx.GroupCount == 0 {
+			tx.Signature.Signature[len(tx.Signature.Signature)/2] ^= 1
+			kinds["badsig"]++
 		}
 	}
 	hexes := make([]string, len(txs))
